@@ -6,7 +6,7 @@ from lib import gpgen
 from py2v import units_gp
 
 PROP = "C02"
-PROPS_FILES = ["Props/C02.v"]
+PROPS_FILES = ["Props/C02.v", "Props/C02_poly.v"]
 ASSUMPTIONS = [
   "exact arithmetic over an abstract real field; 'up to conditioning-scaled rounding' is outside the model (searcher tolerance 1e-8 * cond)",
   "LAPACK contract: a successful cho_factor/cho_solve returns A^-1 b, solve_triangular with the Cholesky factor returns (chol A)^-1 b, chol A (chol A)^T = A",
@@ -118,6 +118,12 @@ def gen_input(rng):
     dim = len(inp["points"][0])
     inp["lies"] = [[rng.uniform(0, 1) for _ in range(dim)] for _ in range(rng.randint(1, 2))]
   return inp
+
+
+def correspondence(ctx):
+  """Tie K for the one hand-written model in this property's cone: the polynomial builders of python_utils (Model/Poly.v)."""
+  from lib import poly_corr
+  return poly_corr.correspondence(ctx)
 
 
 def search(ctx, hints, broken):
